@@ -14,6 +14,7 @@ CONSTANTS
   SlewMax = 200
   MaxSamples = 1
   Ghosts = FALSE
+  Readd = TRUE
   OffPos = {0, 1, 2}
   OffNeg = {1}
   LeapVals = {"none"}
